@@ -35,7 +35,7 @@ func flightOps(c *hx.Ctx) {
 		as := arrowflight.NewAuthServer(enabled)
 		as.SetMetaClient(e.client)
 		c.Emit("fworld enabled="+b01(enabled), "ok")
-		var tokens []string   // token text by index
+		var tokens []string    // token text by index
 		var tokenUser []string // the user each was issued to
 		shake := func(op string, conn *fakeAuthConn, name string) {
 			var err error
